@@ -82,3 +82,51 @@ func ZZFollowerRedeliver(n, k, variant int) {
 	}
 	vReach("end")
 }
+
+// ZZFollowerAppendFails (C03): the follower's WAL append fails once (transient I/O error) for the next entry
+// on the stream: the stream is dropped without an acknowledgement. The leader's cursor reconnects in the
+// same term and re-delivers from the last acknowledged offset. Whatever happens, an Ack is only ever sent
+// for an offset the follower really stores (the oracle in the model stream's Send), and at quiescence the
+// follower's head is its WAL's head.
+func ZZFollowerAppendFails(n, k int) {
+	total := n + k
+	T := int64(3)
+	g := &zzGhost{term: make([]int64, total), val: vBytes("payload", total)}
+	for i := range g.term {
+		g.term[i] = T
+	}
+	w := zzNewWal("f")
+	for i := 0; i < n; i++ {
+		_ = w.AppendAsync(&proto.LogEntry{Term: T, Offset: int64(i), Value: []byte{g.val[i]}})
+	}
+	w.lastSynced = w.lastAppended
+	fc := zzFollowerOver(w, &zzKV{}, T)
+	failAt := vChoice("fail-at", k) // which of the k new entries hits the I/O error
+	acked := int64(n - 1)
+	for round := 0; round < 2; round++ {
+		st := &zzRepStream{ctx: context.Background(), in: make(chan *proto.Append, 8), w: w, ghost: g}
+		done := make(chan error, 1)
+		vGo("replicate", func() { done <- fc.Replicate(st) })
+		for o := int(acked) + 1; o < total; o++ {
+			if round == 0 && o == n+failAt {
+				w.failAppends = 1
+			}
+			st.in <- &proto.Append{Term: T, Entry: &proto.LogEntry{Term: T, Offset: int64(o), Value: []byte{g.val[o]}}, CommitOffset: acked}
+		}
+		vSettle(30)
+		close(st.in)
+		<-done
+		for _, a := range st.acks {
+			if a > acked {
+				acked = a
+			}
+		}
+		w.failAppends = 0
+	}
+	vAssert("acked-entries-are-stored", w.lastAppended >= acked && w.lastSynced >= acked)
+	vAssert("head-tracks-wal", fc.lastAppendedOffset == w.lastAppended)
+	for o := int64(0); o <= w.lastAppended; o++ {
+		vAssert("stored-entry-is-leaders-entry", w.at(o).term == g.term[o] && w.at(o).value[0] == g.val[o])
+	}
+	vReach("end")
+}
